@@ -1147,6 +1147,10 @@ func c06Run(s *c06Scn) (c06Obs, []Mon) {
 						addMon("C06:hijack", why+"; the XR as read by this reconcile already named the other claim")
 					case guarded:
 						addMon("C06:hijack", why+fmt.Sprintf("; the request should carry the resourceVersion of the XR as read (then %s)", map[bool]string{true: "absent", false: "not bound to another claim"}[view == "absent"]))
+					case c.Verb == "delete" && view == "absent":
+						// the unchanged code deletes only an XR its Get FOUND (meta.WasCreated(xr)): a Delete by name of an
+						// XR the deciding read did not return is not one of D34's requests, whoever bound the XR
+						addMon("C06:hijack", why+"; the deciding read of this reconcile answered NotFound: an XR that was not observed must not be deleted")
 					default:
 						// the XR was (re)bound by another claim's controller after the state this reconcile read
 						// (cache lag/miss or a write between the read and this call) and the request is unconditional
